@@ -264,6 +264,9 @@ def run_one(seed, preset=None, tier="quick", want_case=False):
                    "corrupt_list_item": sum(1 for v in chosen.values() if v[1] == "item"),
                    "corrupt_default_resolved": sum(1 for v in chosen.values() if v[1] == "field" and not v[2]),
                    "data_null_entirely": int(out.resp is not None and out.resp.get("data") is None)}
+    if viol:
+        from simv.model.document import doc_to_json
+        r["doc_model"] = doc_to_json(case.doc)
     if want_case or viol:
         c = case.render()
         c["engine_config"] = cfg
